@@ -6,16 +6,18 @@
 import FcModel.PyLite
 namespace Fc.PyLite
 
-/-- run the interpreter on the (concrete) translated AST with symbolic inputs -/
-macro "pylite_eval" : tactic =>
-  `(tactic| simp [Fn.run, Fn.runGen, Fn.flow, initEnv, execBlock, exec, eval, evalList, withVal, withBool, bindAll,
-      St.set, Res.bind, Res.map, getAttr, binop, cmpop, ordOp, memOf, Val.eqv, Val.eqv.eqvList, Val.truthy,
-      Val.asList, Val.asInt, isNone, builtin, indexOf, listSet, intsOf, anyM, allM, compM, forLoop, List.lookup])
-
-macro "pylite_eval_at" h:ident : tactic =>
-  `(tactic| simp [Fn.run, Fn.runGen, Fn.flow, initEnv, execBlock, exec, eval, evalList, withVal, withBool, bindAll,
-      St.set, Res.bind, Res.map, getAttr, binop, cmpop, ordOp, memOf, Val.eqv, Val.eqv.eqvList, Val.truthy,
-      Val.asList, Val.asInt, isNone, builtin, indexOf, listSet, intsOf, anyM, allM, compM, forLoop, List.lookup] at $h:ident)
+/-- run the interpreter on the (concrete) translated AST with symbolic inputs; further simp lemmas
+    (e.g. `indexOf` to unfold indexing on concrete lists) may be given in brackets -/
+syntax "pylite_eval" ("[" Lean.Parser.Tactic.simpLemma,* "]")? : tactic
+macro_rules
+  | `(tactic| pylite_eval) =>
+    `(tactic| simp [Fn.run, Fn.runGen, Fn.flow, initEnv, execBlock, exec, eval, evalList, withVal, withBool, bindAll,
+        St.set, Res.bind, Res.map, getAttr, binop, cmpop, ordOp, memOf, Val.eqv, Val.eqv.eqvList, Val.truthy,
+        Val.asList, Val.asInt, isNone, builtin, intsOf, anyM, allM, compM, forLoop, List.lookup])
+  | `(tactic| pylite_eval [$ls,*]) =>
+    `(tactic| simp [Fn.run, Fn.runGen, Fn.flow, initEnv, execBlock, exec, eval, evalList, withVal, withBool, bindAll,
+        St.set, Res.bind, Res.map, getAttr, binop, cmpop, ordOp, memOf, Val.eqv, Val.eqv.eqvList, Val.truthy,
+        Val.asList, Val.asInt, isNone, builtin, intsOf, anyM, allM, compM, forLoop, List.lookup, $ls,*])
 
 /-! ### `all(...)`, `any(...)`, comprehensions over an embedded list -/
 
@@ -68,11 +70,11 @@ theorem natList_length (l : List Nat) : (l.map fun (n : Nat) => Val.int (n : Int
 
 /-- `xs[-1]` on a list of naturals -/
 theorem indexOf_natList_last (s : List Nat) :
-    indexOf (natList s) (.int (-1)) =
+    indexOf (.list (s.map fun (n : Nat) => Val.int (n : Int))) (.int (-1)) =
       match s.getLast? with
       | some x => .ok (.int (x : Int))
       | none => .raise "IndexError" := by
-  unfold natList indexOf
+  unfold indexOf
   cases hs : s.getLast? with
   | none =>
     have : s = [] := by simpa using hs
